@@ -81,6 +81,18 @@ CLAIMED["C07"] = ("model_checking",
     "TLA+ transcription + TLC (all reachable trees x all queries); transitions replayed; callback sequences validated by TLC",
     "RBTree", "5 C07")
 
+CLAIMED["C08"] = ("model_checking",
+    "PairingHeapImpl.tla transcribes _merge, both passes of _collapse, push, pop and remove-through-backlink; TLC "
+    "enumerates every reachable heap shape for 7-8 elements over a priority multiset with many ties and checks in every "
+    "state: top is a contained maximum, empty() exact, contents reachable exactly once, backlinks consistent, heap "
+    "order, removed hooks reset. One history per transition is replayed on the real pairing_heap; top()/empty() after "
+    "every call and the full hook structure after the last call are validated against HeapPredicates.tla for the "
+    "abstract content set (pop removes exactly what top() returned). Random histories to 400 elements incl. ascending "
+    "and descending priorities.",
+    "bounds: <=8 elements exhaustively, sampled to 400; shape agreement with the transcription is not demanded",
+    "TLA+ transcription + TLC (all reachable shapes); transitions replayed into the real heap; logged structure validated by TLC",
+    "Heap", "5 C08")
+
 NOT_YET = "check not built yet in this round (see DESIGN.md build order); not claimed until its TLA+ spec and conformance harness exist"
 
 checks, na = [], []
